@@ -6,9 +6,12 @@
      OracleMissing   the eval oracle has no answer for a numeric text (the harness did not supply it)
      IndexError      words[0].where_str() inside an error message of a bool/int/ints/choice definition without words
      AssertionError  bool_from_words on an empty word list; "." in a parameter name (__phil_set__);
-                     __phil_join__ meeting a scope_extract_list in one block and something else in another
-     AttributeError  __phil_join__ meeting a scope_extract in one block and None / a str / a number / a list in another
-                     (other_value.__dict__); __phil_set__ of a .multiple object whose name already holds a non-list
+                     __phil_join__ meeting a scope_extract_list in one block and, in a later block, anything but a
+                     scope_extract_list or None
+     AttributeError  __phil_join__ meeting a scope_extract in one block and, in a later block, a str / a number / a plain
+                     list / a word list (other_value.__dict__; None, Auto and a scope_extract_list are tolerated);
+                     __phil_set__ of a .multiple object whose name already holds a non-list
+   (since 3d13dfd the None placeholder of a disabled object in a later block is ignored by __phil_join__)
    Never TypeError, KeyError, ValueError, OverflowError.  A parameter named like an attribute of scope_extract
    (dir(scope_extract), __phil_name__ ...) and float / custom types are UErr "Unmodelled" in this model, not Crash.
 
@@ -185,7 +188,7 @@ Proof.
     destruct sv as [| |s|nn|l|l|[n' sf]|o l]; try apply IHr.
     - destruct ov as [| |s|nn|l|l|oe'|o l]; try (right; reflexivity); try apply IHr.
       apply cres_bind; [apply (Hov sf)|]. intros; apply IHr.
-    - destruct ov; try (left; reflexivity). apply IHr. }
+    - destruct ov; try (left; reflexivity); apply IHr. }
   exact (P (VScope oe)).
 Qed.
 
@@ -297,11 +300,11 @@ Lemma ajoin_cons key os r self :
     if Parser.reserved key then ajoin r self else
     match aget key self with
     | None | Some HFlat | Some HNone => ajoin r (aset key os self)
-    | Some HSList => match os with HSList => ajoin r self | _ => None end
+    | Some HSList => match os with HSList | HNone => ajoin r self | _ => None end
     | Some (HScope sf0) =>
         match os with
         | HScope of0 => match ajoin of0 sf0 with Some sf1 => ajoin r (aset key (HScope sf1) self) | None => None end
-        | HSList => ajoin r self
+        | HSList | HNone => ajoin r self
         | _ => None
         end
     end.
@@ -334,10 +337,12 @@ Proof.
           destruct x; try contradiction; apply (IHr osr _ _ sf' Hor Set_ A).
         * destruct x; try contradiction. apply (IHr osr _ _ sf' Hor (hs_set key ov os self sf Hs Hov) A).
         * destruct x as [| | | | | | |o l]; try contradiction. destruct os; try discriminate.
+          { destruct ov; try contradiction. apply (IHr osr self sf sf' Hor Hs A). }
           destruct ov as [| | | | | | |o' l']; try contradiction.
           refine (IHr osr _ sf sf' Hor _ A). apply (hs_update key _ HSList _ _ Hs G2). exact I.
         * destruct x as [| | | | | |[n' vf0]|]; try contradiction. apply has_shape_scope in Gx.
           destruct os as [| | |of0]; try discriminate.
+          -- destruct ov; try contradiction. apply (IHr osr self sf sf' Hor Hs A).
           -- destruct ov as [| | | | | | |o' l']; try contradiction. apply (IHr osr self sf sf' Hor Hs A).
           -- destruct ov as [| | | | | |[n2 ovf]|]; try contradiction. apply has_shape_scope in Hov.
              destruct (ajoin of0 sf0) as [sf1|] eqn:J; [|discriminate].
@@ -508,22 +513,32 @@ Definition ex_ok : obj :=
 Example extract_wf_example : extract_wf ex_ok = true.
 Proof. vm_compute. reflexivity. Qed.
 
-(* reachable crash on a parsed document (not on a fetch result: fetch drops disabled objects):
-   a scope in two blocks, the later block holding a DISABLED object whose name is a scope in the earlier block *)
+(* repaired in 3d13dfd (formerly the finding C16-join-disabled): a scope in two blocks, the later block holding a
+   DISABLED object whose name is a scope (or a .multiple list) of the earlier block - the placeholder is ignored *)
 Definition ex_disabled_in_later_block : obj :=
   tscope "" false [
-    tscope "s" false [tscope "t" false [tdef "a" "1" []] []] [];
-    tscope "s" false [tscope "t" true [tdef "b" "2" []] []] []] [].
-Example disabled_in_later_block_crashes :
-  extract_wf ex_disabled_in_later_block = false
-  /\ extract_obj (fun _ => None) (fun s => s) ex_disabled_in_later_block = Crash c_attr.
+    tscope "s" false [tscope "t" false [tdef "a" "1" []] []; tdef "m" "1" multi] [];
+    tscope "s" false [tscope "t" true [tdef "b" "2" []] []; Def (mkhdr (s_ "m") true 0 false 1 1) [tw "2"] []] []] [].
+Example disabled_in_later_block_ok :
+  extract_wf ex_disabled_in_later_block = true
+  /\ extract_obj (fun _ => None) (fun s => s) ex_disabled_in_later_block
+     = Ok (VScope (Ext [] [(s_ "s", VScope (Ext (s_ "s")
+            [(s_ "t", VScope (Ext (s_ "t") [(s_ "a", VList [VStr (s_ "1")])]));
+             (s_ "m", VScopeList ANone [VList [VStr (s_ "1")]])]))])).
 Proof. split; vm_compute; reflexivity. Qed.
-(* the same objects in the other order are fine *)
-Example disabled_in_earlier_block_ok :
-  extract_wf (tscope "" false [
-    tscope "s" false [tscope "t" true [tdef "b" "2" []] []] [];
-    tscope "s" false [tscope "t" false [tdef "a" "1" []] []] []] []) = true.
-Proof. vm_compute. reflexivity. Qed.
+
+(* what still raises: blocks of one scope that disagree in kind (a scope here, a definition there) ... *)
+Example kind_disagreement_crashes :
+  let t := tscope "" false [tscope "s" false [tscope "t" false [tdef "a" "1" []] []] [];
+                            tscope "s" false [tdef "t" "5" []] []] [] in
+  extract_wf t = false /\ extract_obj (fun _ => None) (fun s => s) t = Crash c_attr.
+Proof. split; vm_compute; reflexivity. Qed.
+(* ... or in .multiple *)
+Example multiple_disagreement_crashes :
+  let t := tscope "" false [tscope "s" false [tdef "a" "1" multi] [];
+                            tscope "s" false [tdef "a" "x" []] []] [] in
+  extract_wf t = false /\ extract_obj (fun _ => None) (fun s => s) t = Crash c_assert.
+Proof. split; vm_compute; reflexivity. Qed.
 
 Print Assumptions extract_crash_kinds.
 Print Assumptions extract_total.
